@@ -72,8 +72,13 @@ var listenRe = regexp.MustCompile(`Listening on (\S+:\d+)`)
 // Start launches the binary with args on a fresh pty and waits for the
 // "Listening on" line.
 func Start(bin, home string, args ...string) (*Session, error) {
+	return StartEnv(bin, home, nil, args...)
+}
+
+// StartEnv is Start with extra environment variables for the binary.
+func StartEnv(bin, home string, extraEnv []string, args ...string) (*Session, error) {
 	os.MkdirAll(home, 0o755)
-	p, err := ptyx.Start(ptyx.Opts{Path: bin, Args: args, Env: Env(home), Dir: home})
+	p, err := ptyx.Start(ptyx.Opts{Path: bin, Args: args, Env: append(Env(home), extraEnv...), Dir: home})
 	if err != nil {
 		return nil, err
 	}
